@@ -3,6 +3,7 @@ from .. import tables as T
 from ..rules import influence as R1
 from ..rules import refusal as R5
 from ..rules import meet as R1M
+from ..rules import variant as R1V
 
 CONFIGS_QUICK = ["default"]
 CONFIGS_THOROUGH = ["default", "nopar", "r1cs"]
@@ -17,7 +18,10 @@ EXPLANATION = (
     "the key holds a table of enforced bounds, is matched against that table by an equality-capable comparison "
     "(==, != or a three-way cmp; a lone `<` cannot tell an exact match from the next larger entry) -, the payload of "
     "the shifted commitment, and the verifier key's per-bound shift elements each reach the outcome of `check` and "
-    "`batch_check`. The arithmetic of the shift is not decided.")
+    "`batch_check`. R1v: where the commitment has a separate shifted part, its presence is tied to the presence of "
+    "the bound on the label by a refusal (a comparison of the two presences that reaches the outcome, or an aborting "
+    "unwrap of the shifted part under a test of the bound), so a label claiming a bound is never accepted with the "
+    "shifted part dropped. The arithmetic of the shift is not decided.")
 RULE = ("instances = 6 admission rows x {variant present+dependent+propagated, admission dominates msm} + Sonic trim "
         "row + verifier anchors x {degree_bound payload, shifted commitment payload, per-bound key elements}")
 
@@ -69,17 +73,25 @@ def run(rep, ctx, tier):
             for name, comp in comps:
                 ok, detail, where, n = R1.component(ctx, a, comp, cut_sponge=True)
                 rep.add("R1", "%s:%s" % (a.key, name), ok, detail, where or a.body.span, nontrivial=n > 0)
-            if "vk_field" in db:
-                # the label's numeric bound is matched *for equality* against the bounds the key was trimmed for
-                g = ctx.graph(a)
-                A = [("STATE", ("FIELD", T.LC, "degree_bound"), "usize")] if ("FIELD", T.LC, "degree_bound") in g.fwd else []
-                vf = ("FIELD", db["vk_field"][0], db["vk_field"][1])
-                B = [("STATE", vf, "usize")] if vf in g.fwd else []
-                if not A or not B:
-                    rep.add("R1m", "%s:bound-matched-exactly" % a.key, False, "degree bound or the key's bound table is never read (fail closed)", a.body.span)
-                else:
-                    ok, detail, where = R1M.check(ctx, a, A, B, cut_sponge=True, equality_only=True)
-                    rep.add("R1m", "%s:bound-matched-exactly" % a.key, ok,
-                            "the commitment's degree bound and the key's enforced bounds: %s" % detail +
-                            ("" if ok else " - without an equality test a bound the key was not trimmed for is served with a neighbouring entry"),
-                            where)
+            bound_table_rules(rep, ctx, a, db)
+
+
+def bound_table_rules(rep, ctx, a, db):
+    """R1v and R1m on one verifier anchor of a bound-enforcing scheme (shared with C10)."""
+    if "shifted" in db:
+        ok, detail, where = R1V.check(ctx, a, ("FIELD", T.LC, "degree_bound"), ("FIELD", db["shifted"][0], db["shifted"][1]))
+        rep.add("R1v", "%s:bound-and-shifted-part-consistent" % a.key, ok, detail, where)
+    if "vk_field" in db:
+        # the label's numeric bound is matched *for equality* against the bounds the key was trimmed for
+        g = ctx.graph(a)
+        A = [("STATE", ("FIELD", T.LC, "degree_bound"), "usize")] if ("FIELD", T.LC, "degree_bound") in g.fwd else []
+        vf = ("FIELD", db["vk_field"][0], db["vk_field"][1])
+        B = [("STATE", vf, "usize")] if vf in g.fwd else []
+        if not A or not B:
+            rep.add("R1m", "%s:bound-matched-exactly" % a.key, False, "degree bound or the key's bound table is never read (fail closed)", a.body.span)
+        else:
+            ok, detail, where = R1M.check(ctx, a, A, B, cut_sponge=True, equality_only=True)
+            rep.add("R1m", "%s:bound-matched-exactly" % a.key, ok,
+                    "the commitment's degree bound and the key's enforced bounds: %s" % detail +
+                    ("" if ok else " - without an equality test a bound the key was not trimmed for is served with a neighbouring entry"),
+                    where)
